@@ -353,8 +353,19 @@ class Walker:
 
     def try_stmt(self, s, env):
         # idiom: try: <calls> except X: pass/handler else: <body>
+        if s.finalbody and (s.handlers or s.orelse):
+            raise AnalysisError('try/except/finally outside the walker idiom in %s' % self.fi.qualname)
         if s.finalbody:
-            raise AnalysisError('try/finally outside the walker idiom in %s' % self.fi.qualname)
+            # try: <body> finally: <cleanup> - the cleanup also runs when the body raises: its events carry the
+            # guard ('finally', ...) so that rules can tell them from effects that need normal completion
+            tid = id(s)
+            self.block(s.body, env)
+            g0 = self.guards
+            self.guards = g0 + ((('finally', tid), True, tid),)
+            self.emit('Finally', s)
+            self.block(s.finalbody, env)
+            self.guards = g0
+            return
         tid = id(s)
         self.block(s.body, env)
         names = []
